@@ -538,7 +538,20 @@ def abstract_minmax(I, v, is_min, key):
 
 
 def abstract_sum(I, v):
-    raise Unsupported("sum of an abstract list")
+    """sum(abstract list of numbers): an uninterpreted function of the list identity (list terms are hash-consed and
+    pointwise-equal flatMaps unified, so the real body's and the spec's sum over the same list are one constant);
+    the only fact given is sum([]) == 0"""
+    if not isinstance(v, AList) or v.term.etype is None or v.term.etype.kind != "scalar":
+        raise Unsupported("sum of an abstract list")
+    t = v.term
+    if t.etype.sort == INT:
+        c = z3.Int("sum!" + t.uid)
+    elif t.etype.sort == REAL:
+        c = z3.Real("sum!" + t.uid)
+    else:
+        raise Unsupported("sum of an abstract list of non-numbers")
+    I.ctx.assume(z3.Implies(t.length() == 0, c == 0))
+    return c
 
 
 def abstract_anyall(I, v, is_any):
